@@ -14,6 +14,18 @@ import (
 	"golang.org/x/tools/go/ssa"
 )
 
+// forceModels makes every model take its symbolic path even on concrete inputs
+// (translator validation of the models against the native functions).
+var forceModels bool
+
+func concStr(v Value) (string, bool) {
+	if forceModels {
+		return "", false
+	}
+	s, ok := v.(string)
+	return s, ok
+}
+
 type modelFn func(p *Path, fn *ssa.Function, args []Value) Value
 
 var models = map[string]modelFn{}
@@ -215,7 +227,7 @@ func (p *Path) decideVal(v Value) bool {
 }
 
 func (p *Path) mapCase(s Value, upper bool) Value {
-	if c, ok := s.(string); ok {
+	if c, ok := concStr(s); ok {
 		if upper {
 			return strings.ToUpper(c)
 		}
@@ -282,8 +294,8 @@ func (p *Path) matchAt(s Value, i int, sub Value) Value {
 }
 
 func (p *Path) strContains(s, sub Value) Value {
-	if a, ok := s.(string); ok {
-		if b, ok := sub.(string); ok {
+	if a, ok := concStr(s); ok {
+		if b, ok := concStr(sub); ok {
 			return strings.Contains(a, b)
 		}
 	}
@@ -311,8 +323,8 @@ func modelContainsAny(p *Path, fn *ssa.Function, a []Value) Value {
 
 // strIndex returns the first index >= from at which sub occurs (forking), or -1.
 func (p *Path) strIndex(s, sub Value, from int) int {
-	if a, ok := s.(string); ok {
-		if b, ok := sub.(string); ok {
+	if a, ok := concStr(s); ok {
+		if b, ok := concStr(sub); ok {
 			i := strings.Index(a[from:], b)
 			if i < 0 {
 				return -1
@@ -341,8 +353,8 @@ func modelLastIndex(p *Path, fn *ssa.Function, a []Value) Value {
 
 func modelCount(p *Path, fn *ssa.Function, a []Value) Value {
 	s, sub := a[0], a[1]
-	if x, ok := s.(string); ok {
-		if y, ok := sub.(string); ok {
+	if x, ok := concStr(s); ok {
+		if y, ok := concStr(sub); ok {
 			return int64(strings.Count(x, y))
 		}
 	}
@@ -373,8 +385,8 @@ func modelCount(p *Path, fn *ssa.Function, a []Value) Value {
 }
 
 func (p *Path) strSplit(s, sep Value, after bool, n int) Value {
-	if a, ok := s.(string); ok {
-		if b, ok := sep.(string); ok {
+	if a, ok := concStr(s); ok {
+		if b, ok := concStr(sep); ok {
 			var parts []string
 			switch {
 			case after:
@@ -448,7 +460,7 @@ func (p *Path) isSpaceByte(b Value) Value {
 
 func modelTrimSpace(p *Path, fn *ssa.Function, a []Value) Value {
 	s := a[0]
-	if c, ok := s.(string); ok {
+	if c, ok := concStr(s); ok {
 		return strings.TrimSpace(c)
 	}
 	lo, hi := 0, strLen(s)
@@ -481,9 +493,9 @@ func modelTrimLeft(p *Path, fn *ssa.Function, a []Value) Value {
 
 func modelReplaceAll(p *Path, fn *ssa.Function, a []Value) Value {
 	s, old, nw := a[0], a[1], a[2]
-	if x, ok := s.(string); ok {
-		if y, ok := old.(string); ok {
-			if z, ok := nw.(string); ok {
+	if x, ok := concStr(s); ok {
+		if y, ok := concStr(old); ok {
+			if z, ok := concStr(nw); ok {
 				return strings.ReplaceAll(x, y, z)
 			}
 		}
@@ -528,7 +540,7 @@ func modelReplaceAll(p *Path, fn *ssa.Function, a []Value) Value {
 
 func modelAtoi(p *Path, fn *ssa.Function, a []Value) Value {
 	s := a[0]
-	if c, ok := s.(string); ok {
+	if c, ok := concStr(s); ok {
 		v, err := strconv.Atoi(c)
 		if err != nil {
 			return Tuple{int64(v), Iface{T: nativeErrorType, V: &Native{V: err}}}
